@@ -767,11 +767,11 @@ def _encode_ints(values):
     return bz2.compress(values)
 
 #===============================================================================
-def _decode_ints(values, shape):
+def _decode_ints(values, shape, dtype='int'):
     """Decode an integer array using BZ2 decompression."""
 
     bz2_bytes = bz2.decompress(values)
-    return np.frombuffer(bz2_bytes, dtype='int').reshape(shape)
+    return np.frombuffer(bz2_bytes, dtype=dtype).reshape(shape)
 
 #===============================================================================
 def _encode_bools(values):
@@ -824,7 +824,8 @@ def __getstate__(self):
                           for any floating-point compression performed.
       ('BOOL', shape, size)
                           if packbits plus BZ2 compression was performed.
-      ('INT', shape)      if BZ2 compression of integers was performed.
+      ('INT', shape, dtype)
+                          if BZ2 compression of integers was performed.
     """
 
     # Start with a shallow clone; save derivatives for later
@@ -901,7 +902,7 @@ def __getstate__(self):
         # Integers use straight BZ2-encoding
         elif dtype == 'int':
             shape = clone._values_.shape
-            clone.VALS_ENCODING.append(('INT', shape))
+            clone.VALS_ENCODING.append(('INT', shape, clone._values_.dtype.str))
             clone._values_ = _encode_ints(clone._values_)
 
         # Booleans use BZ2-encoding of the packed bits
@@ -996,8 +997,7 @@ def __setstate__(self, state):
         method = encoding[0]
 
         if method == 'INT':
-            (_, shape) = encoding
-            self._values_ = _decode_ints(self._values_, shape)
+            self._values_ = _decode_ints(self._values_, *encoding[1:])
 
         elif method == 'BOOL':
             (_, shape, size) = encoding
